@@ -72,6 +72,20 @@ CHECKS = {
                 nontrivial_rule="a history counts if a sweep met an idle channel that had to be gone or the quiescence oracle ran; distinct by history hash.",
                 floors={"quick": {"c13_must_be_gone": 2000, "c13_empty_at_quiescence": 1500, "c13_sweep_count": 1500,
                                   "c13_injected_sweep_failure": 300, "c13_real_lock_sweep_failure": 30, "sweep_failed_injected": 300}}),
+    "C10": dict(module="mon.checks.c10", level="fault_enumeration",
+                rule="Crash points = both sides of every real commit of either database inside every command and sweep of directed and random live histories "
+                     "(with and without usage db); at each the database files and hot journals are copied from inside the commit hook (the bytes a kill -9 leaves). "
+                     "Per distinct image (by logical content after SQLite recovery): server's own open routines + integrity_check, uniqueness/dangling checks, "
+                     "'nobody returns' (service on the image, expiry + 2 periods through the real timer: no sweep error, store empty), and for in-flight "
+                     "claim/release/open/close 'clients resume' (everyone rebinds, command re-sent, generated continuation) compared with the same continuation "
+                     "from the files as they were when the command had completed.",
+                nontrivial_rule="a history counts if it produced at least one crash image; distinct by history hash (distinct images counted separately).",
+                level_text="Fault enumeration by runtime monitoring: every commit boundary of every executed command and sweep is a crash point; each distinct "
+                           "on-disk state is restarted on the real code under both continuations.",
+                technique="runtime crash injection: file images at every commit boundary of the real server, restarted and judged by oracles + differential continuation",
+                budget={"quick": 60, "thorough": 1200},
+                floors={"quick": {"c10_crash_point": 5000, "c10_distinct_image": 1500, "c10_nobody_returns": 1500, "c10_clients_resume": 300,
+                                  "c10_resume_claim": 50, "c10_resume_release": 30, "c10_resume_open": 50, "c10_resume_close": 30}}),
     "C11": dict(module="mon.checks.c11", level="exploration",
                 rule="Differential at a cut: the prefix of a random history (2 apps, 3 sides, explicit sweeps as history events, clock jumps) is executed once, "
                      "all connections are dropped and the database files copied; the kept server object and a fresh makeService on the copy then both execute "
